@@ -274,7 +274,17 @@ def run(rep: Report, tier: str):
     ups = unpickler_calls(repo, ld)
     for c in ups:
         q = repo.resolve_expr(ld.module, c.func, set(ld.params())) or src(c.func)
-        if q in ("pickle.loads", "_pickle.loads") and q in W["activate_safe_ml_environment"]:
+        f0 = c.func
+        if isinstance(f0, ast.Name):
+            # a function-local rebinding executed on this call is still a call-time lookup
+            loc = [st.value for st in body_walk(ld.node) if isinstance(st, ast.Assign) and any(isinstance(t, ast.Name) and t.id == f0.id for t in st.targets)]
+            if len(loc) == 1:
+                f0 = loc[0]
+                q = repo.resolve_expr(ld.module, f0, set(ld.params())) or q
+        at_call_time = isinstance(f0, ast.Attribute) and isinstance(f0.value, ast.Name) and f0.value.id not in ld.params() and (repo.resolve_expr(ld.module, f0.value, set(ld.params())) or "") in ("pickle", "_pickle")
+        if q in ("pickle.loads", "_pickle.loads") and q in W["activate_safe_ml_environment"] and not at_call_time:
+            rep.bad("C12.nested-protection", ld.qualname, f"import-time-bound-real-load:{q}", f"the checked loader unpickles through `{src(c.func)}`, a name bound to {q} when the module was imported (or imported by value), not looked up on the pickle module at call time: it is always the ORIGINAL function, so with the safe ML environment armed underneath, entering a safety context (or arming the global check) bypasses the allowlist - an enclosing protection is dropped", ld.file, c.lineno)
+        elif q in ("pickle.loads", "_pickle.loads") and q in W["activate_safe_ml_environment"]:
             rep.ok("C12.nested-protection", ld.qualname, f"real load via {q}, an entry point the safe ML environment mediates (looked up at call time)", f"{ld.file}:{c.lineno}")
         else:
             rep.bad("C12.nested-protection", ld.qualname, f"unmediated-real-load:{q if isinstance(q, str) else '?'}", f"the checked loader unpickles through `{src(c.func)}`; with the safe ML environment armed underneath, entering a safety context (or arming the global check) then bypasses the allowlist - an enclosing protection is dropped", ld.file, c.lineno)
